@@ -160,6 +160,26 @@ def check_sql(q, impl, model):
             bad.append(("model:groupby-classes", "impl %s model %s" % (got, exp)))
         if I["distinct"] not in ("err", "panic") and int(I["distinct"]) != len(cls):
             bad.append(("model:distinct-count", "impl %s model %d" % (I["distinct"], len(cls))))
+    # --- top-N: ORDER BY g, v [DESC] LIMIT n OFFSET m over (g = id % 2, v) must be rows m+1..m+n of
+    # the full order, compared on the keys (g, cmp-rank of v); ties on g at the cut-off are decided by v
+    tn = I.get("topn", "")
+    if tn in ("", "load-failed"):
+        bad.append(("model:topn-not-run", tn))
+    else:
+        for part in tn.split(","):
+            spec, _, got = part.partition("=")
+            d, lim, off = spec.split("-")
+            lim, off = int(lim), int(off)
+            if got in ("err", "panic"):
+                bad.append(("model:topn-failed", part))
+                continue
+            seq = [int(x) for x in got.split(".")] if got else []
+            key = {"a": lambda i: (i % 2, ranks[i]), "d": lambda i: (-(i % 2), -ranks[i]), "m": lambda i: (i % 2, -ranks[i])}[d]
+            exp = sorted(key(i) for i in range(n))[off:off + lim]
+            if [key(i) for i in seq] != exp or len(set(seq)) != len(seq):
+                bad.append(("model:topn-" + {"a": "asc", "d": "desc", "m": "mixed"}[d],
+                            "ORDER BY %s LIMIT %d OFFSET %d returned ids %s with keys %s, rows %d..%d of the full order have keys %s" % (
+                                {"a": "g, v", "d": "g desc, v desc", "m": "g, v desc"}[d], lim, off, seq, [key(i) for i in seq], off + 1, off + lim, exp)))
     # --- MIN / MAX
     mm = I.get("minmax", "")
     if mm in ("err", "panic", "none"):
